@@ -5,15 +5,15 @@ from .mir import callee, callee_matches, Prov
 from .ctx import where_of
 
 EXPLANATION = (
-    "(operator-table) the registration table is joined with the MIR of the registered functions: `<` calls "
-    "PartialOrd::lt on Number, `<=` le, `>` gt, `>=` ge, `=` PartialEq::eq, and the false outcome of the comparison "
-    "returns #f; max folds with gt and min with lt, keeping the left operand when the comparison holds; (chain) an "
-    "n-ary comparison is one loop over the remaining arguments comparing (previous, current), returning #f on the "
-    "first failing pair, #t at the end, and advancing previous := current; (cross-mult) the ratio arms of "
-    "eq/partial_cmp/exact_eqv compare lhs.num*rhs.den with rhs.num*lhs.den in that order — sound given positive "
-    "denominators (C09-denominator-sign) and absence of overflow (C09-range / never-wrong-exact, re-run here for these "
-    "three functions); (eqv) exact_eqv is false across variants; (maxmin-contagion) the folded value of max/min is "
-    "taken from the promoted operand pair, so one inexact argument makes the result inexact.")
+    '(operator-table, chain) predicate tables by abstract interpretation: each of < <= > >= = applied to three '
+    'opaque numbers with each vector of comparison outcomes performs the comparison its name denotes on adjacent '
+    'pairs in order and returns their conjunction; max / min compare the running result with each argument by > / '
+    '<, return the selected operand, taken from the promoted pair (one inexact argument makes the result '
+    'inexact); (cross-mult) symbolic evaluation of eq / partial_cmp / exact_eqv on a/b and c/d with symbolic '
+    "components: every boolean shortcut is explored both ways and each path's decisive comparison is checked "
+    'against a*d ? c*b on all sign/order classes of numerators -2..2 and denominators 1..3 — sound given positive '
+    'denominators (C09-denominator-sign) and absence of overflow (interval analysis re-run for these functions); '
+    '(eqv) exact_eqv is false across exactness classes.')
 NOT_DECIDED = "order laws on concrete values; behaviour of the real type's own comparison (NaN, -0.0)."
 
 BASE = "interpreter::library::native::base::"
